@@ -59,14 +59,14 @@ def val_replay(mode):
 
 def jobs(tier, seed):
     J = []
-    J.append(Job("hdr.is_invalid_fragment_header", props=["C09", "C11", "C15"], layer="L4", strength="Pinf",
+    J.append(Job("hdr.is_invalid_fragment_header", props=["C09", "C11", "C15", "C20"], layer="L4", strength="Pinf",
                  title="is_invalid_fragment_header == spec acceptance predicate on all 2^640 headers and all CRC values; header unmodified",
                  functions=["is_invalid_fragment_header"], replaced=["crc32 (zlib; ghost result, args asserted)", "liberasurecode_crc32_alt (ghost result, args asserted)"],
                  repo_src=[EC], remove_bodies=CUT, replay=hdr_replay("hdr"), harness=["harness/h_hdr_valid.c", "harness/stub_env.c", "harness/stub_ctor.c"], unwind=81,
                  expect=["C09: header accepted iff", "C09/C15: validation does not modify", "crc32.requires/C09"],
                  assumptions=[A_ZLIB, A_ALT]))
     for twin in (0, 1):
-        J.append(Job("hdr.get_fragment_metadata" + (".twin" if twin else ""), props=["C11"] if twin else ["C09", "C10", "C11", "C13", "C15"],
+        J.append(Job("hdr.get_fragment_metadata" + (".twin" if twin else ""), props=["C11"] if twin else ["C09", "C10", "C11", "C13", "C15", "C20"],
                      layer="L4", strength="Pinf",
                      title=("liberasurecode_get_fragment_metadata on a native header and its opposite-endian twin: same fields, verdict, mismatch flag" if twin else
                             "liberasurecode_get_fragment_metadata on all 2^640 headers: bad header => -EBADHEADER, else fields decoded in the header's byte order, CRC32 mismatch flag == spec, fragment unmodified"),
@@ -77,7 +77,7 @@ def jobs(tier, seed):
                      unwind=81, expect=["C11:"] if twin else ["C10: mismatch reported iff", "C09: an unacceptable header", "C11: checksum type"],
                      assumptions=[A_ZLIB, A_ALT]))
     for mode, fn, nf in ((1, "is_invalid_fragment", 1), (2, "liberasurecode_verify_stripe_metadata", 4 if tier == "thorough" else 3)):
-        J.append(Job("val." + fn, props=["C12", "C13", "C15"] + (["C09", "C10"] if mode == 1 else []), layer="L4",
+        J.append(Job("val." + fn, props=["C12", "C13", "C15"] + (["C09", "C10", "C20"] if mode == 1 else []), layer="L4",
                      strength="Pinf" if mode == 1 else "B", bound="" if mode == 1 else "stripe length num_fragments <= %d (count only; every header byte, k, m, ids, versions symbolic)" % nf,
                      title=("is_invalid_fragment == reference verdict (header order/acceptance, library version, index range, backend id, backend version, payload checksum) for every header, instance and descriptor" if mode == 1 else
                             "liberasurecode_verify_stripe_metadata: negative iff a supplied fragment fails index/backend-id/backend-version or carries a mismatch flag; code of the first failing one"),
